@@ -23,6 +23,12 @@ partial def objOfSexp : Sexp → Option Obj
       (kvs.mapM (fun (kv : Sexp) => match kv with
         | .list [k, v] => do some ((← objOfSexp k), (← objOfSexp v))
         | _ => Option.none)).map .dict
+  | .list (.atom "D" :: .atom cl :: kvs) => do
+      let d ← (match cl with
+        | "od" => some DK.ordered | "dd" => some DK.defaultdict | "ctr" => some DK.counter | _ => Option.none)
+      (kvs.mapM (fun (kv : Sexp) => match kv with
+        | .list [k, v] => do some ((← objOfSexp k), (← objOfSexp v))
+        | _ => Option.none)).map (.mdict d)
   | .list (.atom "I" :: c :: fs) => do
       let c ← atomNat? c
       let fs ← fs.mapM (fun (kv : Sexp) => match kv with
@@ -47,6 +53,9 @@ partial def sexpOfObj : Obj → Sexp
   | .coll .set xs => .list (.atom "S" :: sortedSexps xs)
   | .coll .fset xs => .list (.atom "F" :: sortedSexps xs)
   | .dict kvs => .list (.atom "d" :: kvs.map (fun (k, v) => .list [sexpOfObj k, sexpOfObj v]))
+  | .mdict d kvs =>
+      .list (.atom "D" :: .atom (match d with | .ordered => "od" | .defaultdict => "dd" | .counter => "ctr")
+        :: kvs.map (fun (k, v) => .list [sexpOfObj k, sexpOfObj v]))
   | .inst c fs => .list (.atom "I" :: ofNat c :: fs.map (fun (n, v) => .list [.str n, sexpOfObj v]))
   | .opaque n => .list [.atom "o", ofNat n]
 /-- sets are printed sorted by canonical text (both sides do the same) -/
@@ -76,6 +85,10 @@ partial def tyOfSexp : Sexp → Option Ty
   | .list [.atom "dict", k, v] => do some (.map .dict (← tyOfSexp k) (← tyOfSexp v))
   | .list [.atom "map", k, v] => do some (.map .mapping (← tyOfSexp k) (← tyOfSexp v))
   | .list [.atom "mmap", k, v] => do some (.map .mutmapping (← tyOfSexp k) (← tyOfSexp v))
+  | .list [.atom "odict", k, v] => do some (.map .ordered (← tyOfSexp k) (← tyOfSexp v))
+  | .list [.atom "ddict", k, v] => do some (.map .defaultdict (← tyOfSexp k) (← tyOfSexp v))
+  -- `Counter[K]`: `gen_structure_counter` fixes the value type to `int`
+  | .list [.atom "counter", k] => do some (.map .counter (← tyOfSexp k) .int)
   | .list [.atom "opt", t] => (tyOfSexp t).map .opt
   | .list [.atom "new", t] => (tyOfSexp t).map (.wrap .newtype)
   | .list [.atom "ann", t] => (tyOfSexp t).map (.wrap .annotated)
